@@ -95,6 +95,8 @@ def run(ctx):
     exclusive_rule(ctx, syn)
     compress_rule(ctx, syn)
     expand_rule(ctx, syn)
+    from props.c02 import pred_rule
+    pred_rule(ctx, syn, rid="C01.PRED")   # the forward list loses exactly the (set, data) entry whose index entry is removed with it
     guard_rule(ctx, syn)
 
     r_own = ctx.rule("C01.OWN", "index, id-map, store and position-index fields are written only by their sanctioned writers")
